@@ -160,6 +160,23 @@ func c37(x *Ctx) {
 	})
 	c.Decide(wh != nil, "C37.status-relayed", "proxy/status", x.PosOf(p.Pos()), "status = upstream status", "the client does not receive the upstream status code")
 	c.Decide(cp != nil, "C37.body-relayed", "proxy/response-body", x.PosOf(p.Pos()), "body = upstream body", "the upstream response body is not copied to the client")
+	if wh != nil && cp != nil {
+		// once the status has been relayed the body copy follows on every path (no "nothing to copy" shortcut:
+		// a chunked response has ContentLength -1 and still has a body)
+		r := eng.Explore(eng.Query{Fn: p, Start: wh, Classify: func(in ssa.Instruction, _ eng.Facts) eng.Event {
+			if in == cp {
+				return eng.EvKill
+			}
+			return eng.EvNone
+		}})
+		skipped := false
+		for _, e := range r.Exits {
+			if _, isRet := e.Instr.(*ssa.Return); isRet {
+				skipped = true
+			}
+		}
+		c.Decide(!skipped, "C37.body-relayed", "proxy/response-body-always", x.Pos(wh), "status relayed ⇒ body copy on every path", "after the upstream status has been relayed a path returns without copying the upstream body (a shortcut on the method or the declared length): responses framed without Content-Length reach the client with an empty body")
+	}
 	if ok2 && wh != nil && cp != nil {
 		// order: header loop exits before WriteHeader, WriteHeader dominates the copy
 		h := loopHeader(hdrSet)
